@@ -83,6 +83,14 @@ func (s *System) HandleRemotingEnvelop(system bool, senderAddr, senderPath, rece
 		s.Logger().Warn("invalid receiver ref", log.String("address", receiverAddr), log.String("path", receiverPath), log.Any("err", err))
 		return fmt.Errorf("%w: invalid receiver ref, %s/%s", err, receiverAddr, receiverPath)
 	}
+	// 该帧已经到达本系统的监听端口，无论发送方拨号时使用的是哪个地址别名（localhost 与 127.0.0.1、域名、NAT 地址），
+	// 接收者都在本系统内：必须按路径在本地解析。否则 findMailbox 会把别名当作"远程系统"，本系统向自己再次发送同一信封，
+	// 如此往复永不停止，而消息永远不会被投递。
+	if receiver.GetAddress() != s.Ref().GetAddress() {
+		if receiver, err = NewRef(s.Ref().GetAddress(), receiverPath); err != nil {
+			return fmt.Errorf("%w: invalid receiver ref, %s/%s", err, receiverAddr, receiverPath)
+		}
+	}
 	receiverMailbox := s.findMailbox(receiver)
 	envelop := mailbox.NewEnvelop(system, sender, receiver, messageInstance)
 	receiverMailbox.Enqueue(envelop)
